@@ -724,13 +724,44 @@ pub fn protocol_case(rng: &mut Rng) -> Option<Case> {
         // associative, NON-commutative iteration (running product of 2x2 matrices) over >= 16 elements with
         // per-step outputs: depth-optimised inlining uses the prefix-sum data structures
         let st2 = *rng.pick(&[UINT8, INT16, UINT32, INT64]);
-        let mt = array_type(vec![2, 2], st2);
+        let flavour = rng.below(4);
         let n_it = if rng.chance(1, 5) { 1 + rng.below(15) } else { 16 + rng.below(9) };
-        let body = GraphD {
-            steps: vec![inp(&mt), inp(&mt), st_of(Operation::Matmul, vec![0, 1]), st_of(Operation::CreateTuple, vec![2, 2])],
-            output: 3,
-            annotations: vec![GraphAnnotation::AssociativeOperation],
-            ..Default::default()
+        // flavour 0,1: associative matrix product; 2: one-bit batched state; 3: two-bit batched state
+        let (mt, body) = match flavour {
+            2 => {
+                // state' = state * elem + elem on independent bit rows (the batched one-bit-state contract)
+                let bt = array_type(vec![1 + rng.below(3)], BIT);
+                let with_out = rng.chance(2, 3);
+                let mut st_steps = vec![inp(&bt), inp(&bt), st_of(Operation::Multiply, vec![0, 1]), st_of(Operation::Add, vec![2, 1])];
+                let outv = if with_out {
+                    3
+                } else {
+                    st_steps.push(st_of(Operation::CreateTuple, vec![]));
+                    4
+                };
+                let k = st_steps.len();
+                st_steps.push(st_of(Operation::CreateTuple, vec![3, outv]));
+                (bt, GraphD { steps: st_steps, output: k, annotations: vec![GraphAnnotation::OneBitState], ..Default::default() })
+            }
+            3 => {
+                // two-bit state per row: state' = state + elem (bitwise), rows independent
+                let bt = array_type(vec![1 + rng.below(2), 2], BIT);
+                (bt.clone(), GraphD {
+                    steps: vec![inp(&bt), inp(&bt), st_of(Operation::Add, vec![0, 1]), st_of(Operation::Multiply, vec![2, 1]), st_of(Operation::Add, vec![3, 0]), st_of(Operation::CreateTuple, vec![4, 4])],
+                    output: 5,
+                    annotations: vec![GraphAnnotation::SmallState],
+                    ..Default::default()
+                })
+            }
+            _ => {
+                let mt = array_type(vec![2, 2], st2);
+                (mt.clone(), GraphD {
+                    steps: vec![inp(&mt), inp(&mt), st_of(Operation::Matmul, vec![0, 1]), st_of(Operation::CreateTuple, vec![2, 2])],
+                    output: 3,
+                    annotations: vec![GraphAnnotation::AssociativeOperation],
+                    ..Default::default()
+                })
+            }
         };
         let vt = ciphercore_base::data_types::vector_type(n_it, mt.clone());
         let mut msteps = vec![inp(&mt), inp(&vt), Step { op: Operation::Iterate, deps: vec![0, 1], gdeps: vec![0] }];
